@@ -546,3 +546,66 @@ Proof.
   - reflexivity.
   - subst e. split; discriminate.
 Qed.
+
+(* ------------------------------------------------------------------ the literal reading of the property: longest PROPER prefix, the empty one included *)
+Inductive RouteSpec : node -> list string -> target -> Prop :=
+| RS_opaque : forall id p, RouteSpec (NOpaque id) p (TgtOpaque id p)
+| RS_exact : forall rs ss p r, dict_get_opt rs p = Some r -> RouteSpec (NSite rs ss) p (TgtRes r)
+| RS_sub : forall rs ss p pre rest c t,
+    dict_get_opt rs p = None ->
+    p = pre ++ rest -> rest <> [] ->                       (* pre may be [] : a nested site registered at the site's own path *)
+    dict_get_opt ss pre = Some c ->
+    (forall pre' rest', p = pre' ++ rest' -> rest' <> [] -> (List.length pre < List.length pre')%nat -> dict_get_opt ss pre' = None) ->
+    RouteSpec c (norm_rest rest) t ->
+    RouteSpec (NSite rs ss) p t.
+(* no nested site is registered at the empty path, anywhere in the tree *)
+Fixpoint no_empty_subsite (n : node) : bool :=
+  match n with
+  | NOpaque _ => true
+  | NSite rs ss => negb (dict_contains [] ss) &&
+                   (fix go (l : dict node) : bool := match l with [] => true | (_, c) :: tl => no_empty_subsite c && go tl end) ss
+  end.
+Lemma no_empty_subsite_site : forall rs ss,
+  no_empty_subsite (NSite rs ss) = negb (dict_contains [] ss) && forallb (fun kc : list string * node => no_empty_subsite (snd kc)) ss.
+Proof.
+  intros rs ss. cbn [no_empty_subsite]. f_equal. induction ss as [|[k c] ss IH]; [reflexivity|]. cbn [forallb snd]. rewrite <- IH. reflexivity.
+Qed.
+(* the code's relation is always contained in the literal one ... *)
+Lemma Route_RouteSpec : forall n p t, Route n p t -> RouteSpec n p t.
+Proof.
+  intros n p t H. induction H as [id p | rs ss p r Hr | rs ss p pre rest c t Hr Hp Hpre Hrest Hc Hmax Hsub IH].
+  - constructor.
+  - apply RS_exact. exact Hr.
+  - apply (RS_sub rs ss p pre rest c t); assumption.
+Qed.
+(* ... and equal to it exactly when no nested site sits at an empty path *)
+Lemma RouteSpec_Route : forall n p t, RouteSpec n p t -> no_empty_subsite n = true -> Route n p t.
+Proof.
+  intros n p t H. induction H as [id p | rs ss p r Hr | rs ss p pre rest c t Hr Hp Hrest Hc Hmax Hsub IH]; intro Hne.
+  - constructor.
+  - apply Route_exact. exact Hr.
+  - rewrite no_empty_subsite_site in Hne. apply andb_true_iff in Hne. destruct Hne as [H0 Hch].
+    apply (Route_sub rs ss p pre rest c t); try assumption.
+    + intros ->. unfold dict_contains in H0. rewrite Hc in H0. discriminate.
+    + apply IH. rewrite forallb_forall in Hch. apply (Hch (pre, c)). apply dict_get_opt_In. exact Hc.
+Qed.
+Lemma RouteSpec_iff_Route : forall n p t, no_empty_subsite n = true -> (RouteSpec n p t <-> Route n p t).
+Proof. intros n p t H. split; [intro HS; apply RouteSpec_Route; assumption | apply Route_RouteSpec]. Qed.
+(* the dispatch refines the literal specification on every tree without a nested site at an empty path *)
+Lemma render_route_spec : forall n pipe m, uri_path_abbrev m = None -> no_empty_subsite n = true ->
+  forall t, RouteSpec n (uri_path m) t <-> leaf_target (render pipe n m) = Some t.
+Proof. intros n pipe m Hab Hne t. rewrite (RouteSpec_iff_Route n _ t Hne). apply render_route. exact Hab. Qed.
+(* with one it does not: the literal specification routes, the code answers 4.04 (open finding C17:empty-prefix-subsite-ignored) *)
+Lemma empty_prefix_subsite_ignored :
+  let r := RHandler 1 (Some []) in
+  let n := NSite [] [([], NSite [(["x"%string], r)] [])] in
+  RouteSpec n ["x"%string] (TgtRes r) /\ render false n (new_request ["x"%string] None) = LeafExn NotFound /\
+  get_resources_as_linkheader n = Some [("//x"%string, [])].
+Proof.
+  cbv zeta. split; [|split; vm_compute; reflexivity].
+  apply (RS_sub [] _ ["x"%string] [] ["x"%string] (NSite [(["x"%string], RHandler 1 (Some []))] [])); try reflexivity; try discriminate.
+  - intros pre' rest' Hp Hr Hlen. destruct pre' as [|a pre']; [simpl in Hlen; lia|].
+    destruct pre' as [|b pre'']; [|destruct pre''; discriminate].
+    simpl in Hp. inversion Hp; subst. congruence.
+  - apply RS_exact. reflexivity.
+Qed.
